@@ -61,6 +61,7 @@ impl PlFold for Flattener {
             ExprKind::TransformCall(t) => {
                 log::debug!("flattening {}", (*t.kind).as_ref());
 
+                let mut ends_sort = false;
                 let (input, kind) = match *t.kind {
                     TransformKind::Sort { by } => {
                         // fold
@@ -148,6 +149,12 @@ impl PlFold for Flattener {
                     kind => {
                         let input = self.fold_expr(*t.input)?;
 
+                        // An aggregate outside of any group collapses the relation: whatever order was
+                        // in effect in front of it says nothing about its output, and its sort columns
+                        // do not exist any more.
+                        ends_sort = self.partition.is_none()
+                            && matches!(kind, TransformKind::Aggregate { .. });
+
                         // Relational arguments (the `with` of join, the bottom of append, the body
                         // of loop) are pipelines of their own: the sort, the partition and the
                         // window frame of this pipeline must not leak into them, nor theirs into
@@ -193,6 +200,9 @@ impl PlFold for Flattener {
                 } else {
                     self.sort.clone()
                 };
+                if ends_sort {
+                    self.sort.clear();
+                }
 
                 ExprKind::TransformCall(TransformCall {
                     input: Box::new(input),
